@@ -504,3 +504,89 @@ func ruleR164(c *Ctx) {
 		c.Undecided("parser2.Parser.parseLiteral#identifier-translation", fd.Pos(), "expected the map access and the plain identifier nodes (found %d, %d)", nAccess, nPlain)
 	}
 }
+
+// ---------------------------------------------------------------------------
+// R16.5 scope links pass the looked up name on unchanged
+
+// ruleR165: the scope is a chain of lookup functions, innermost first. Lexical
+// scoping rests on each link either answering for the name itself or asking
+// its parent for *the same name*. A link that asks the parent for another name
+// (an alias resolved at the place of use) is resolved against the scopes that
+// lie between the use and the definition: a parameter of a nested closure with
+// the aliased name captures the reference (let a = x; [..].map(x -> x + a)).
+func ruleR165(c *Ctx) {
+	root := c.Pkg("")
+	if root == nil {
+		c.Undecided("package parser2", token.NoPos, "not found")
+		return
+	}
+	info := root.TypesInfo
+	n := 0
+	for _, f := range root.Syntax {
+		for _, d := range f.Decls {
+			fd, ok := d.(*ast.FuncDecl)
+			if !ok || fd.Body == nil || fd.Recv == nil || recvTypeName(fd.Recv.List[0].Type) != "Identifiers" || len(fd.Recv.List[0].Names) != 1 {
+				continue
+			}
+			obj, _ := info.Defs[fd.Name].(*types.Func)
+			if obj == nil {
+				continue
+			}
+			if sig := obj.Type().(*types.Signature); sig.Results().Len() != 1 || !isNamed(sig.Results().At(0).Type(), modPath, "Identifiers") {
+				continue
+			}
+			recv := info.Defs[fd.Recv.List[0].Names[0]]
+			for _, rf := range c.returnedFuncs(root, fd) {
+				// the name parameter of the lookup function
+				var ft *ast.FuncType
+				switch t := rf.fn.(type) {
+				case *ast.FuncLit:
+					ft = t.Type
+				case *ast.FuncDecl:
+					ft = t.Type
+				}
+				if ft == nil || ft.Params.NumFields() != 1 || len(ft.Params.List[0].Names) != 1 {
+					continue
+				}
+				nameParam := info.Defs[ft.Params.List[0].Names[0]]
+				isParent := func(e ast.Expr) bool {
+					switch t := ast.Unparen(e).(type) {
+					case *ast.Ident:
+						return rf.bind == nil && info.ObjectOf(t) == recv
+					case *ast.SelectorExpr:
+						if rf.bind == nil {
+							return false
+						}
+						if id, ok := ast.Unparen(t.X).(*ast.Ident); ok && info.ObjectOf(id) == rf.recv {
+							if be, ok := rf.bind[t.Sel.Name]; ok {
+								if bid, ok := ast.Unparen(be).(*ast.Ident); ok && info.ObjectOf(bid) == recv {
+									return true
+								}
+							}
+						}
+					}
+					return false
+				}
+				k := 0
+				ast.Inspect(rf.body, func(x ast.Node) bool {
+					call, ok := x.(*ast.CallExpr)
+					if !ok || len(call.Args) != 1 || !isParent(call.Fun) {
+						return true
+					}
+					n++
+					k++
+					key := fmt.Sprintf("%s#parent-lookup[%d]", declName(root, fd), k)
+					if id, ok := ast.Unparen(call.Args[0]).(*ast.Ident); ok && info.ObjectOf(id) == nameParam {
+						c.OK(key, call.Pos(), "the parent scope is asked for the looked up name itself")
+					} else {
+						c.Violation(key, call.Pos(), "the parent scope is asked for %s instead of the looked up name: the reference is resolved where it is used, against every scope between the use and the definition, so a parameter or let of that name in a nested closure captures it (lexical scoping is lost)", nodeStr(c.Fset, call.Args[0]))
+					}
+					return true
+				})
+			}
+		}
+	}
+	if n < 5 {
+		c.Undecided("parser2.Identifiers#parent-lookups", token.NoPos, "only %d parent lookups found", n)
+	}
+}
